@@ -1,7 +1,7 @@
 """C11 — primitive distance functions: global minimum (structural clauses)."""
 from . import scopes
 from ..core.report import DOMAIN_D
-from ..rules import features, degree, roles, mirror, runmin, unpack, sides, onsegment, ericson, misc2, siblings
+from ..rules import partition, features, degree, roles, mirror, runmin, unpack, sides, onsegment, ericson, misc2, siblings
 
 
 def run(idx, rep, tier):
@@ -28,6 +28,7 @@ def run(idx, rep, tier):
     degree.r_degree(idx, rep, modules=mods, floor=20)
     onsegment.r_halfsize(idx, rep, [x.name for x in idx.lib_modules() if x.name.startswith("distance3d.distance")], floor=5)
     ericson.r_ericson(idx, rep)
+    partition.r_isolated(idx, rep, [m.name for m in idx.lib_modules() if m.name.startswith('distance3d.distance')], floor=1)
     misc2.r_dupcond(idx, rep, [m.name for m in idx.lib_modules()], floor=3)
     siblings.r_segsibling(idx, rep)
     misc2.r_parallelsign(idx, rep, [x.name for x in idx.lib_modules() if x.name.startswith("distance3d.distance")])
